@@ -129,17 +129,31 @@ func installPartitionFn(register func(ps *partState), free bool, gates ...*gcGat
 	}
 }
 
+// noCluster is the storage state manager of a node without a cluster: remote replicators (built by recovery for a
+// follower's consumer group found in a log) can register their watch, no follower is ever live.
+type noCluster struct {
+	coordstorage.StateManager
+}
+
+func (noCluster) WatchNodeStateChangeEvent(models.NodeID, func(models.NodeStateType)) {}
+
+func (noCluster) GetLiveNode(models.NodeID) (models.StatefulNode, bool) {
+	return models.StatefulNode{}, false
+}
+
 // bindReplicator creates the local replicator like the write handler does and remembers it.
 func bindReplicator(ps *partState) error {
 	if err := ps.outer.BuildReplicaForLeader(selfNode, []models.NodeID{selfNode}); err != nil {
 		return err
 	}
 	nodes, reps := replica.VerifReplicators(ps.inner)
-	if len(reps) != 1 {
-		return fmt.Errorf("partition %s has %d replicators", ps.key, len(reps))
+	for i := range nodes {
+		if nodes[i] == selfNode {
+			ps.nodeID, ps.rep = nodes[i], reps[i]
+			return nil
+		}
 	}
-	ps.nodeID, ps.rep = nodes[0], reps[0]
-	return nil
+	return fmt.Errorf("partition %s has no local replicator (%d replicators)", ps.key, len(reps))
 }
 
 func runHistory(idx int, dir, tier string, seed, t0 int64) *ledger {
@@ -203,7 +217,7 @@ func runHistory(idx int, dir, tier string, seed, t0 int64) *ledger {
 		}
 		ps.fam.onAck = d.onAck
 	}, false, d.gate)
-	d.mgr = replica.NewWriteAheadLogManager(d.ctx, walConfigGC(), selfNode, n.Engine, nil, nil)
+	d.mgr = replica.NewWriteAheadLogManager(d.ctx, walConfigGC(), selfNode, n.Engine, nil, noCluster{})
 	d.wal = d.mgr.GetOrCreateLog(dbName)
 	// partitions: what the storage write handler does when the first write stream of a (shard, family, leader) arrives
 	for s := 0; s < p.Shards; s++ {
@@ -643,6 +657,19 @@ func (d *driver) before(label string) {
 	}
 }
 
+// ackFollower makes sure the partition has a second consumer group - the one a remote replicator to follower node 2
+// would own - that has consumed and acknowledged everything appended so far. (IsExpire closes a drained group of an
+// old partition, so the group is looked up again every time.)
+func (d *driver) ackFollower(ps *partState) {
+	cg, err := ps.log.GetOrCreateConsumerGroup("2")
+	if err != nil {
+		d.problem("follower consumer group of %s: %v", ps.key, err)
+		return
+	}
+	cg.SetSeq(ps.log.Queue().AppendedSeq())
+	d.count("follower_group_acknowledged_everything", 1)
+}
+
 // recreate does what the storage write handler does when a write stream arrives for a (shard, family, leader) whose
 // log partition the garbage collector has removed: GetOrCreatePartition + BuildReplicaForLeader (a new, empty log).
 func (d *driver) recreate(key partKey) {
@@ -687,45 +714,67 @@ func (d *driver) walGC() {
 		before int64
 	}
 	var live []st
+	oldAlive := false
 	for _, key := range d.L.Parts {
 		if ps := d.parts[key]; !ps.dead.Load() {
-			live = append(live, st{ps, ps.polled.Load()})
+			live = append(live, st{ps, 0})
+			if key.Family == d.L.Old {
+				oldAlive = true
+			}
 		}
 	}
 	if len(live) == 0 {
 		return
 	}
-	d.gate.open.Store(true)
-	deadline := time.Now().Add(20 * time.Second) // watchdog
-	passDone := false
-	for !passDone && time.Now().Before(deadline) {
-		time.Sleep(time.Millisecond)
-		all := true
-		for _, l := range live {
-			if l.ps.polled.Load() == l.before && !l.ps.dead.Load() {
-				all = false
+	// IsExpire walks the consumer groups of a partition in map order: several passes while a partition of the old family
+	// has a second (follower) consumer group that has acknowledged everything
+	passes := 1
+	if oldAlive {
+		passes = 3
+	}
+	passDone := true
+	for pass := 0; pass < passes && passDone; pass++ {
+		for i := range live {
+			live[i].before = live[i].ps.polled.Load()
+			if ps := live[i].ps; ps.key.Family == d.L.Old && !ps.dead.Load() {
+				d.ackFollower(ps)
 			}
 		}
-		if !all {
-			continue
-		}
-		// every partition was asked; the pass (stop, close, remove of the expired ones) is over when the task asks again
-		mark := d.gate.polls.Load()
-		for time.Now().Before(deadline) {
-			stillLive := false
+		d.gate.open.Store(true)
+		deadline := time.Now().Add(20 * time.Second) // watchdog
+		passDone = false
+		for !passDone && time.Now().Before(deadline) {
+			time.Sleep(time.Millisecond)
+			all := true
 			for _, l := range live {
-				if !l.ps.dead.Load() {
-					stillLive = true
+				if l.ps.polled.Load() == l.before && !l.ps.dead.Load() {
+					all = false
 				}
 			}
-			if d.gate.polls.Load() > mark || !stillLive {
-				passDone = true
-				break
+			if !all {
+				continue
 			}
-			time.Sleep(time.Millisecond)
+			// every partition was asked; the pass (stop, close, remove of the expired ones) is over when the task asks again
+			mark := d.gate.polls.Load()
+			for time.Now().Before(deadline) {
+				stillLive := false
+				for _, l := range live {
+					if !l.ps.dead.Load() {
+						stillLive = true
+					}
+				}
+				if d.gate.polls.Load() > mark || !stillLive {
+					passDone = true
+					break
+				}
+				time.Sleep(time.Millisecond)
+			}
 		}
+		d.gate.open.Store(false)
+		// let a poll that slipped through the closing gate finish before the follower group is touched again
+		time.Sleep(10 * time.Millisecond)
+		d.count("wal_garbage_collect_passes", 1)
 	}
-	d.gate.open.Store(false)
 	if !passDone {
 		d.problem("garbage collect task did not complete a pass")
 	}
